@@ -189,6 +189,10 @@ def format_name(i):
     format = i.pop()
     n = i.pop()
     names = i.pop()
+    if not 1 <= n <= len(_split_names(names)):
+        print_warning(u'there is no name number {0} in "{1}"'.format(n, names))
+        i.push('')
+        return
     i.push(_format_name(names, n, format))
 
 
